@@ -797,12 +797,9 @@ def extract_all_linear_coefficients(
     # Fast path: LinearCombination over VectorVariable covering all variables
     if isinstance(expr, LinearCombination) and isinstance(expr.vector, VectorVariable):
         vec_n = len(expr.vector._variables)
-        if vec_n == n:
-            first_var = expr.vector._variables[0]
-            first_idx = var_index.get(first_var.name, -1)
-            if first_idx == 0:
-                # Variables in order, return coefficients directly
-                return np.asarray(expr.coefficients, dtype=np.float64).copy()
+        if vec_n == n and _in_column_order(expr.vector, var_index):
+            # Variables in order, return coefficients directly
+            return np.asarray(expr.coefficients, dtype=np.float64).copy()
 
     # Fast path: BinaryOp with VectorSum/LinearCombination (e.g., x.sum() - k)
     if isinstance(expr, BinaryOp):
@@ -814,6 +811,19 @@ def extract_all_linear_coefficients(
     result = np.zeros(n, dtype=np.float64)
     _extract_all_coefficients_impl(expr, var_index, result, 1.0)
     return result
+
+
+def _in_column_order(vector: object, var_index: dict[str, int]) -> bool:
+    """True if element i of the variable vector is LP column i.
+
+    A view need not be in natural name order (a row of ``diag_matrix(x)``, a
+    stepped diagonal of a symmetric matrix), so looking at the first element
+    only is not enough to copy coefficients position by position.
+    """
+    return all(
+        var_index.get(v.name, -1) == i
+        for i, v in enumerate(vector._variables)  # type: ignore[attr-defined]
+    )
 
 
 def _try_extract_fast_binop(
@@ -846,9 +856,9 @@ def _try_extract_fast_binop(
         ):
             vec_n = len(expr.left.vector._variables)
             if vec_n == n:
-                first_var = expr.left.vector._variables[0]
-                first_idx = var_index.get(first_var.name, -1)
-                if first_idx == 0 and isinstance(expr.right, (Constant, int, float)):
+                if _in_column_order(expr.left.vector, var_index) and isinstance(
+                    expr.right, (Constant, int, float)
+                ):
                     return np.asarray(expr.left.coefficients, dtype=np.float64).copy()
 
     # Handle: constant * VectorSum, VectorSum * constant
